@@ -187,6 +187,17 @@ theorem caller_data_never_mutated : ∀ s ∈ callerStores, ∀ w ∈ fieldWrite
   have h2 := List.all_eq_true.mp h1 w hw
   simp [heq, lw] at h2
 
+/-- **Exit takes effect once.**  `SentinelEntry.Exit` performs every call that acts on the entry (exit handlers,
+    `sc.exit`, `RefurbishContext`) inside `e.exitCtl.Do(func(){…})`, so any number of goroutines may call `Exit` on one
+    entry: `sync.Once` runs the body once and makes the other callers wait for it. -/
+theorem exit_runs_once : ∀ f ∈ requiredOnce, ∃ r ∈ onceFacts, r.fn = f ∧ r.outside = 0 ∧ 0 < r.inside := by
+  have h : onceOkB requiredOnce onceFacts = true := by decide +kernel
+  intro f hf
+  have h1 := List.all_eq_true.mp h f hf
+  obtain ⟨r, hr, hp⟩ := List.any_eq_true.mp h1
+  simp only [Bool.and_eq_true, beq_iff_eq, decide_eq_true_eq] at hp
+  exact ⟨r, hr, hp.1.1, hp.1.2, hp.2⟩
+
 /-- fail closed: the extractor met no construct it could not interpret in live code -/
 theorem extractor_understood_everything : ∀ u ∈ unknowns, (u.phase != Phase.live) = true :=
   List.all_eq_true.mp (by decide +kernel)
@@ -238,6 +249,15 @@ def pinnedInsertRows : List Insert :=
   [⟨0, 0, [], false, .live, "core/outlier.addNodeBreakerOfResource", "core/outlier/rule_manager.go:69", "address"⟩]
 
 theorem outlier_lost_insert_witness : pinnedInsertRows.all (insertOkB pinnedNodeMapRows []) = false := by decide
+
+/-- known finding `same-entry-seterror-exit-race` (heap field, found by the race detector; rows written by hand from
+    the detector's report, not produced by the translator): `SentinelEntry.SetError` writes `ctx.err` with nothing held,
+    the statistic slots read it inside `Exit` with nothing held -/
+def pinnedEntryErrRows : List Access :=
+  [⟨0, 0, true, [], .live, "core/base.EntryContext.SetError", "core/base/context.go:52"⟩,
+   ⟨1, 0, false, [], .live, "core/base.EntryContext.Err", "core/base/context.go:48"⟩]
+
+theorem same_entry_error_race_witness : disciplinedB [] pinnedEntryErrRows = false := by decide
 
 def pinnedPlainRows : List PlainUse :=
   [⟨0, 0, false, .live, "core/stat/base.LeapArray.currentBucketOfTime", "core/stat/base/leap_array.go:232"⟩,
